@@ -78,7 +78,11 @@ func genOps(r *vf.Rand, kind zoo.Kind, n int) []op {
 	lts, rts := uint32(1000), uint32(5000)
 	var sent []uint16
 	for i := 0; i < n; i++ {
-		switch x := r.Intn(10); {
+		x := r.Intn(10)
+		if kind == zoo.JitterBuffer && x < 6 {
+			x = 5 // the buffer emits nothing before it holds 50 packets: mostly incoming RTP
+		}
+		switch {
 		case x < 4: // outgoing RTP
 			st := r.Intn(2)
 			lseq[st]++
@@ -111,7 +115,15 @@ func genOps(r *vf.Rand, kind zoo.Kind, n int) []op {
 			ops = append(ops, o)
 		case x < 7: // incoming RTP
 			st := r.Intn(2)
-			rseq[st] += uint16(r.Pick(1, 1, 1, 2))
+			step := uint16(r.Pick(1, 1, 1, 2))
+			if kind == zoo.JitterBuffer {
+				// one buffer for the interceptor; it stops emitting at the first missing number
+				st, step = 0, 1
+				if i > n*3/4 && r.Chance(0.05) {
+					step = 2
+				}
+			}
+			rseq[st] += step
 			rts += 3000
 			sh := gen.RandomShape(r)
 			if sh.ExtKind == 3 {
@@ -392,6 +404,9 @@ func play(c *vf.Case, kind zoo.Kind, optSeed *vf.Rand, ops []op, scribble bool) 
 func run(c *vf.Case) {
 	kind := kinds[c.Idx%len(kinds)]
 	n := c.R.Range(20, 120)
+	if kind == zoo.JitterBuffer {
+		n = c.R.Range(100, 300)
+	}
 	ops := genOps(c.R, kind, n)
 	optSeed := c.R.U64()
 	a := play(c, kind, vf.NewRand(optSeed, "opts", 0), ops, false)
